@@ -188,10 +188,15 @@ def tiny(vals, mode):
 def files(draw, tier):
     N, n = draw(st.integers(2, 30)), draw(st.integers(2, 6))
     alpha = draw(st.sampled_from(["XYZ", "XYZ", "XYZHQ", "ZX"]))
-    pat = draw(st.sampled_from(["mixed", "mixed", "none_Z", "all_Z"]))
+    pat = draw(st.sampled_from(["mixed", "mixed", "none_Z", "all_Z", "one_global_basis", "global_bases"]))
+    one = draw(st.sampled_from("XYXY" if "Y" in alpha else "XX"))
     bases = []
     for i in range(N):
-        if pat == "all_Z" or (pat == "mixed" and draw(st.integers(0, 2)) == 0):
+        if pat == "one_global_basis":
+            bases.append(one * n)                 # the whole data set measured in ONE non-reference basis (the same letter on every site of every row)
+        elif pat == "global_bases":
+            bases.append(draw(st.sampled_from([ch for ch in alpha if ch in "XYZ"])) * n)     # every row in a global basis XX.. / YY.. / ZZ..
+        elif pat == "all_Z" or (pat == "mixed" and draw(st.integers(0, 2)) == 0):
             bases.append("Z" * n)
         else:
             b = draw(gen.basis_string(n, alpha))
@@ -242,6 +247,9 @@ def check_files(c, reuse_dir=None):
             for b in c["bases"]:
                 f.write(" ".join(b) + "\n")
         uniq = sorted(set(c["bases"]))
+        # the file lists the distinct bases in the order the experimenter chose (reference basis first, reversed, as first met in the data ...)
+        ko = len(c["bases"]) % 3
+        uniq = uniq[::-1] if ko == 0 else (list(dict.fromkeys(c["bases"])) if ko == 1 else (["Z" * n] if "Z" * n in uniq else []) + [b for b in uniq if b != "Z" * n])
         with open(P("all_bases.txt"), "w") as f:
             for b in uniq:
                 f.write(b + "\n")
